@@ -74,6 +74,11 @@ def one_query_dir(ctx, res, rng, k):
         if cands:
             files[b] = files[b].rstrip("\n") + "\n\n" + cands[len(cands) // 2] + " (copied and edited)\n"
             dup = True
+    if k % 3 == 0 and len(files) >= 2:
+        # tags / people / property keys that differ only by letter case are different names
+        a, b = sorted(files)[:2]
+        files[a] = files[a].rstrip("\n") + "\n\n- 200101#c0 upper #CaseTag %Bob +Proj @Ctx Due::friday\n"
+        files[b] = files[b].rstrip("\n") + "\n\n- 200101#c1 lower #casetag %bob +proj @ctx due::monday\no 200101#c2 mixed #CASETAG %BOB DUE::never\n"
     G.write_dir(zdir, files)
     Z.clear_engine_cache()
     with freeze_time(dt.datetime(*TODAY, 12, 0)):
@@ -154,6 +159,13 @@ def one_query_dir(ctx, res, rng, k):
                     continue
                 for n in back["notes"]:
                     r = rows[n["zid"]]
+                    # what the printed note carries itself is part of what the index holds for it (same spelling)
+                    lost = [(f, x) for f in ("areas", "contexts", "people", "projects", "links") for x in n[f] if x not in r[f]]
+                    lost += [("props", tuple(kv)) for kv in n["props"] if list(kv) not in [list(p) for p in r["props"]]]
+                    if lost:
+                        res.failures.append(C.Failure(f"{label}: note {n['zid']} is printed with {lost[:3]} which the index does not hold for it ({ {f: r[f] for f, _ in lost[:3]} })",
+                                                      {"query": q, "kind": "own_metadata"}))
+                        break
                     if n["body"] != r["body"] or n["kind"] != r["kind"]:
                         res.failures.append(C.Failure(f"{label}: note {n['zid']} body/kind changed: {r['body']!r} -> {n['body']!r}", {"query": q}))
                         break
@@ -251,7 +263,7 @@ def classify(f: C.Failure, entry: dict) -> bool:
 RULE = (
     "every note compiled from C01's generated pages (all kinds, priorities, identity shapes, multi-line, 55 word forms) is rendered with "
     "Note.to_string(), the renderings are placed under a page header in original and shuffled order and compiled again; also swog.execute "
-    "'S note … G none' under 6 orderings and refresh_zoq_file pages on indexed directories (every second one with notes stamped on three later days, every fourth one with a note copied with its ZID to another page); non-trivial = distinct rendered page with notes"
+    "'S note … G none' under 6 orderings and refresh_zoq_file pages on indexed directories (every second one with notes stamped on three later days, every fourth one with a note copied with its ZID to another page, every third one with tags / keys differing only by case; printed metadata vs index row); non-trivial = distinct rendered page with notes"
 )
 ASSUME = ["compile correspondence of C01 for the second compilation"]
 
